@@ -149,9 +149,6 @@ func (fc *FCtx) oblName(kind string) string {
 // oblige emits an obligation goal under the current path condition and expression guards, then
 // assumes the goal on the continuing path.
 func (fc *FCtx) oblige(st *State, kind, goal, clause string, pos token.Pos) {
-	if goal == "true" {
-		return
-	}
 	g := and(fc.guards...)
 	o := &Obligation{Name: fc.oblName(kind), Kind: kind, Assumes: append(append([]string(nil), st.pc...), g), Goal: goal, Clause: clause, Func: fc.FI.Key}
 	if pos.IsValid() {
